@@ -3125,7 +3125,8 @@ def flow_case(kind, window=(4096, 1024), half='L', nwin=8, slow=True,
         can_pause = slow and isinstance(a, App)
         if can_pause:
             a.t.pause_reading()
-        total = max(nwin * window[0], 300000 if can_pause else 0)
+        total = max(min(nwin * window[0], 400000),
+                    300000 if can_pause else 0)
         piece = window[0] // 2 + 37
         n = 0
         while n < total:
@@ -3160,6 +3161,238 @@ def flow_case(kind, window=(4096, 1024), half='L', nwin=8, slow=True,
         res['l1'] = list(w.l1)
         res['loop_exceptions'] = w.loop_exceptions()
         res['features'] = []
+    finally:
+        w.stop()
+    return res
+
+
+# ======================================================================
+# ListenAsync: listeners whose creation is asynchronous vs. the end of
+# their connection (specs/Forward/ListenAsync.tla)
+# ======================================================================
+
+class AsyncListenWorld:
+    def __init__(self):
+        world = self
+        self.loop = loop = new_loop()
+        self.decisions = {}         # request -> future returned by the server app
+        self.gates = {}             # request -> future the set-up waits for
+        self.tasks = {}
+        self.cfg = {}
+        self.expect = None
+        self.remote_order = []      # remote requests the server has not seen
+        self.gating = False
+        self.dead = False
+        self.l1 = []
+        k = keys()
+        o_gai, o_unix = loop.getaddrinfo, loop.create_unix_server
+
+        async def getaddrinfo(host, port, **kw):
+            if world.gating and world.expect is not None:
+                f = loop.create_future()
+                world.gates[world.expect] = f
+                world.expect = None
+                await f
+            return await o_gai(host, port, **kw)
+
+        async def create_unix_server(factory, path=None, **kw):
+            if world.gating and world.expect is not None:
+                f = loop.create_future()
+                world.gates[world.expect] = f
+                world.expect = None
+                await f
+            return await o_unix(factory, path, **kw)
+        loop.getaddrinfo = getaddrinfo
+        loop.create_unix_server = create_unix_server
+
+        class Server(asyncssh.SSHServer):
+            def connection_made(self, conn):
+                world.sconn = conn
+
+            def begin_auth(self, username):
+                return False
+
+            def _decide(self):
+                f = loop.create_future()
+                world.decisions[world.remote_order.pop(0)] = f
+                return f
+
+            def server_requested(self, listen_host, listen_port):
+                return self._decide()
+
+            def unix_server_requested(self, listen_path):
+                return self._decide()
+
+        async def go():
+            self.acceptor = await asyncssh.listen(
+                '127.0.0.1', 2222, server_factory=Server,
+                server_host_keys=[k['host']])
+            self.conn = await asyncssh.connect(
+                '127.0.0.1', 2222, known_hosts=None, config=None,
+                client_keys=None)
+        loop.run_until_complete(go())
+        loop.run_until_idle()
+        self.ct, self.st = loop.net.all_transports[0], loop.net.all_transports[1]
+        self.base = set(loop.net.listeners)
+        self.gating = True
+
+    def flag(self, clause, detail, cause=''):
+        if not any(c == clause and k == cause for c, _, k in self.l1):
+            self.l1.append((clause, detail, cause))
+
+    def sockets(self):
+        return sorted(str(a) for a in set(self.loop.net.listeners) - self.base)
+
+    def request(self, k, c):
+        conn = self.conn
+        self.cfg[k] = c
+        unix = c['fam'] == 'unix'
+        path = f'c20-al{k}.sock'
+
+        async def go():
+            if c['side'] == 'remote':
+                if unix:
+                    return await conn.forward_remote_path(path, R_PATH)
+                return await conn.forward_remote_port('127.0.0.1', 0,
+                                                      R_HOST, R_PORT)
+            if unix:
+                return await conn.forward_local_path(path, R_PATH)
+            if k % 2:
+                return await conn.forward_local_port('127.0.0.1', 0,
+                                                     R_HOST, R_PORT)
+            return await conn.forward_socks('127.0.0.1', 0)
+        if c['side'] == 'remote':
+            self.remote_order.append(k)
+        else:
+            self.expect = k
+        self.tasks[k] = self.loop.create_task(go())
+        self.loop.run_until_idle()
+
+    def decide(self, k, ok):
+        f = self.decisions.get(k)
+        if f is None or f.done():
+            return False
+        if ok:
+            self.expect = k
+        f.set_result(bool(ok))
+        self.loop.run_until_idle()
+        self.expect = None
+        return True
+
+    def setup_done(self, k):
+        f = self.gates.get(k)
+        if f is None or f.done():
+            return False
+        f.set_result(None)
+        self.loop.run_until_idle()
+        return True
+
+    def cancel(self, k):
+        t = self.tasks[k]
+        if not t.done() or t.cancelled() or t.exception() is not None:
+            return False
+        lsn = t.result()
+
+        lsn.close()
+        self.loop.run_until_idle()
+        return True
+
+    def conn_end(self, how):
+        self.dead = True
+        if how == 'cclose':
+            self.conn.close()
+        elif how == 'sclose':
+            self.sconn.close()
+        else:
+            self.ct.cut()
+        self.loop.run_until_idle()
+
+    def finish(self):
+        """End the connection if it is still up, let every pending decision
+        and set-up complete, then nothing of the connection may listen."""
+        if not self.dead:
+            self.conn_end('cclose')
+        for k, f in sorted(self.decisions.items()):
+            if not f.done():
+                self.decide(k, True)
+        for k, f in sorted(self.gates.items()):
+            if not f.done():
+                self.setup_done(k)
+        self.loop.run_until_idle()
+        left = self.sockets()
+        if left:
+            sides = sorted({self.cfg[k]['side'] for k in self.cfg})
+            late = []
+            for k, t in self.tasks.items():
+                if t.done() and not t.cancelled() and \
+                        t.exception() is None and \
+                        self.cfg[k]['side'] == 'local':
+                    late.append(k)
+            cause = 'local' if late else 'remote'
+            self.flag('ListenersReleased', f'listening socket(s) {left} '
+                      'survive the end of their SSH connection (listener '
+                      f'became ready after the connection ended; {cause} '
+                      'side)', cause)
+        for t in self.tasks.values():
+            if t.done() and not t.cancelled():
+                t.exception()           # retrieved: no "never retrieved" noise
+
+    def stop(self):
+        try:
+            for f in list(self.decisions.values()) + list(self.gates.values()):
+                if not f.done():
+                    f.cancel()
+            for t in self.tasks.values():
+                t.cancel()
+            self.conn.abort()
+            self.acceptor.close()
+            for srv in list(self.loop.net.listeners.values()):
+                srv.close()
+            self.loop.run_until_idle()
+        except BaseException:           # pylint: disable=broad-except
+            pass
+        close_loop(self.loop)
+
+
+def replay_listen_async(steps):
+    """steps: [(lbl, state)] of a ListenAsync.tla behaviour or bare labels"""
+    w = AsyncListenWorld()
+    res = {'l1': [], 'diverged': None, 'script': []}
+    try:
+        for i, step in enumerate(steps):
+            lbl, st = step if isinstance(step, tuple) and len(step) == 2 \
+                and isinstance(step[1], dict) else (step, None)
+            op = lbl[0]
+            ok = True
+            if op == 'request':
+                w.request(lbl[1], lbl[2])
+                res['script'].append(f'req{lbl[1]}:{lbl[2]["side"][0]}'
+                                     f'{lbl[2]["fam"][0]}')
+            elif op == 'decide':
+                ok = w.decide(lbl[1], lbl[2])
+                res['script'].append(f'dec{lbl[1]}={"y" if lbl[2] else "n"}')
+            elif op == 'setup':
+                ok = w.setup_done(lbl[1])
+                res['script'].append(f'setup{lbl[1]}')
+            elif op == 'cancel':
+                ok = w.cancel(lbl[1])
+                res['script'].append(f'cancel{lbl[1]}')
+            elif op == 'end':
+                w.conn_end(lbl[1])
+                res['script'].append(f'end:{lbl[1]}')
+            div = None if ok else f'{op} {lbl[1]}: not possible'
+            if st is not None and div is None:
+                n = len(w.sockets())
+                want = len(st['socks']['$set']) if isinstance(st['socks'], dict) \
+                    else len(st['socks'])
+                if n != want:
+                    div = f'{op}: {n} listening socket(s), model {want}'
+            if div and not res['diverged']:
+                res['diverged'] = f'step {i}: {div}'
+        w.finish()
+        res['l1'] = list(w.l1)
+        res['loop_exceptions'] = [repr(c.get('exception') or c.get('message'))
+                                  for c in w.loop.exceptions]
     finally:
         w.stop()
     return res
